@@ -790,6 +790,11 @@ def run(ck: Check):
             for variant in ("P", "W", "T0", "T1"):
                 for integrated in (False, True):
                     R.guard('gmrf_live', gmrf_live, R, rng, n, variant, integrated)
+        # how the objects under test are reached: construction routes, dtype regimes, grad modes, immutability, second
+        # instance / deepcopy, batches (B = a dimension, one special row), special values, failure paths
+        import c20_routes
+
+        c20_routes.run(R, rng, ck)
     finally:
         if drv:
             drv.close()
